@@ -36,6 +36,7 @@ CONSTANTS
   MaxBacks = %(maxb)d
   MaxSize = %(size)d
   Deviations = %(dev)s
+  EmitDeviations = %(edev)s
   Focus = "%(focus)s"
   Emit = %(emit)s
 %(checks)s
@@ -70,11 +71,14 @@ PAIRS = (["pair:%s:%s" % (k, f) for k in ("http_front", "https_front") for f in 
 UNIVERSES = [("all", 2, 2, 0), ("identity", 1, 0, 1)]
 
 
-def write_cfg(wd, name, size, dev, emit, focus="all", maxl=2, maxb=2):
+def write_cfg(wd, name, size, dev, emit, focus="all", maxl=2, maxb=2, edev=()):
+    """emit: one pass that checks P_C20 (under `dev`) AND prints one REPLAY line per file, the code outcomes of the
+    open deviations `edev` included."""
     path = os.path.join(wd, name)
     with open(path, "w") as f:
-        f.write(CFG % {"size": size, "dev": tla_set(dev), "emit": "TRUE" if emit else "FALSE", "focus": focus,
-                       "maxl": maxl, "maxb": maxb, "checks": "INVARIANTS EmitFile" if emit else CHECKS})
+        f.write(CFG % {"size": size, "dev": tla_set(dev), "edev": tla_set(edev), "emit": "TRUE" if emit else "FALSE",
+                       "focus": focus, "maxl": maxl, "maxb": maxb,
+                       "checks": CHECKS.replace("INVARIANTS ", "INVARIANTS EmitFile ") if emit else CHECKS})
     return path
 
 
@@ -111,15 +115,22 @@ def run(tier, replay=None):
             if not rc["violated"]:
                 vlib.require_actions_covered(rc, ACTIONS)
             runs.append(rc)
-        # the TLC runs of one stage are independent: run them side by side (the workers are shared out, <= 8 in quick)
+        # the TLC runs are independent: run them side by side (<= 8 TLC workers in quick). Model checking of P_C20
+        # (no deviation) and generation are ONE pass per universe: the generator config checks the invariants and
+        # prints, for the open deviations (EmitDeviations), the code outcomes next to the document reading.
         pool = ThreadPoolExecutor(max_workers=4)
         side = ThreadPoolExecutor(max_workers=2)      # deviation / slip runs, one TLC worker each
         share = {"all": workers // 2, "identity": workers // 4}
-        gshare = {"all": workers - workers // 3, "identity": workers // 3}
-        mcs = [pool.submit(vlib.tlc, "ConfigFile",
-                           write_cfg(wd, "mc_%s.cfg" % focus, size_mc + deeper, [], False, focus, maxl, maxb), PID,
-                           workers=share[focus], timeout=3000 if thorough else 600, xmx="6g" if thorough else "4g")
-               for (focus, maxl, maxb, deeper) in UNIVERSES]
+        parts = [os.path.join(wd, "files_%s.ndjson" % focus) for (focus, _, _, _) in UNIVERSES]
+
+        def generate(u, part):
+            focus, maxl, maxb, deeper = u
+            with open(part, "w") as f:
+                return vlib.tlc("ConfigFile",
+                                write_cfg(wd, "mc_gen_%s.cfg" % focus, size_gen + deeper, [], True, focus, maxl, maxb, devs),
+                                PID, workers=share[focus], timeout=3000, want_replay=True, xmx="6g" if thorough else "4g",
+                                replay_sink=lambda o: f.write(json.dumps(o) + "\n"))
+        futs = [pool.submit(generate, u, part) for u, part in zip(UNIVERSES, parts)]
         # 2. each open deviation must still break the property in the model, and so must each self-test slip
         #    (identity universe with backends, size 5: the smallest files with two certificates / two backends of one id)
         dev_runs = [(d, "open deviation", side.submit(vlib.tlc, "ConfigFile", write_cfg(wd, "mc_dev_%s.cfg" % d, 4, [d], False),
@@ -127,37 +138,25 @@ def run(tier, replay=None):
         dev_runs += [(d, "self-test slip", side.submit(vlib.tlc, "ConfigFile",
                                                       write_cfg(wd, "mc_slip_%s.cfg" % d, 5, [d], False, "identity", 1, 2),
                                                       PID, workers=1, timeout=600)) for d in SLIPS]
-        for fut in mcs:
-            r = fut.result()
-            rep.add_tlc(r)
-            runs.append(r)
-        for x in runs:
+        gens = [f.result() for f in futs]
+        devres = [(d, what, fut.result()) for d, what, fut in dev_runs]
+        pool.shutdown()
+        side.shutdown()
+        for x in runs + gens:
             if x["violated"]:
                 rep.violation("spec:" + x["violated"], "the specification itself violates %s" % x["violated"], x["out"])
-                break
-        for d, what, fut in dev_runs:
-            rd = fut.result()
+                for y in gens:
+                    rep.add_tlc(y)
+                rep.finish()
+                return
+        for d, what, rd in devres:
             rep.add_tlc(rd)
             if not rd["violated"]:
                 raise vlib.ToolError("%s %s no longer violates P_C20 in the model" % (what, d))
             vlib.log("%s %s: TLC counterexample to %s as expected" % (what, d, rd["violated"]))
-        # 3. generators, one per universe, side by side; their files are replayed as one stream
-        parts = [os.path.join(wd, "files_%s.ndjson" % focus) for (focus, _, _, _) in UNIVERSES]
-
-        def generate(u, part):
-            focus, maxl, maxb, deeper = u
-            with open(part, "w") as f:
-                return vlib.tlc("ConfigFile", write_cfg(wd, "gen_%s.cfg" % focus, size_gen + deeper, devs, True, focus, maxl, maxb),
-                                PID, workers=gshare[focus], timeout=3000, want_replay=True, xmx="6g" if thorough else "4g",
-                                replay_sink=lambda o: f.write(json.dumps(o) + "\n"))
-        gens = [f.result() for f in [pool.submit(generate, u, part) for u, part in zip(UNIVERSES, parts)]]
-        pool.shutdown()
-        side.shutdown()
         g = {"n_replays": 0}
         for x in gens:
             rep.add_tlc(x)
-            if x["violated"]:
-                raise vlib.ToolError("generator run reported a violation: %s" % x["violated"])
             if x["n_replays"] != x["distinct"]:
                 raise vlib.ToolError("generator printed %d files for %d states" % (x["n_replays"], x["distinct"]))
             g["n_replays"] += x["n_replays"]
@@ -217,10 +216,12 @@ def run(tier, replay=None):
         rep.violation(v["class"], json.dumps(v["detail"])[:250], v)
     rep.cov["rule"] = ("every abstract configuration file of ConfigFile.tla with #listeners + #clusters + #frontends + #backends "
                        "+ #optional keys written <= %d (at most 2 listeners, 2 clusters, 2 frontends and 2 backends per cluster; "
-                       "protocols http/https/tcp/udp/unknown/missing; 2 addresses; 28 optional keys/values); each rendered to "
+                       "protocols http/https/tcp/udp/unknown/missing; 2 addresses; 32 optional keys/values incl. frontend method / "
+                       "position / tags), plus the identity universe (only identity-bearing keys: path, path_type, method, two "
+                       "certificates; one listener, no backends) up to size %d; each rendered to "
                        "real TOML in %s spellings (array-of-tables vs inline vs dotted keys, IPv4 vs IPv6, entry order) and run "
                        "through load -> messages -> dispatch -> reload. distinct_nontrivial = distinct non-empty abstract files; "
-                       "plus %d replicated files on the SIZE axis" % (size_gen, "3" if thorough else "2", summ["scale_runs"]))
+                       "plus %d replicated files on the SIZE axis" % (size_gen, size_gen + 1, "3" if thorough else "2", summ["scale_runs"]))
     if not os.environ.get("C20_KEEP") and not rep.violations:
         try:
             os.remove(beh)      # up to ~1 GB in the thorough tier
@@ -229,7 +230,8 @@ def run(tier, replay=None):
     rep.assumptions += [
         "a frontend whose address has no [[listeners]] entry gets a default listener of the matching kind (what the shipped bin/config.toml relies on); 'frontends without listener' of the property text is read as 'frontends without a listener of the matching kind'",
         "keys outside the modelled subset (answers, health checks, UDP knobs, redirects, header edits, metrics, TLS cipher lists) are never written; for them only 'still at the documented default' is checked",
-        "expect_proxy on UDP listeners, [hsts] on TCP frontends, path_type without path and re-declaring one backend_id are outside the documented grammar and not generated",
+        "expect_proxy on UDP listeners, [hsts] / method / position / tags on TCP frontends, path_type without path and re-declaring one (backend_id, address) are outside the documented grammar and not generated",
+        "identity of a declared object as ConfigState keeps it: HTTP(S) frontend = (listener kind, address, hostname, path kind, path, method) - position and tags are not part of it; TCP/UDP frontend = (cluster, address); backend = (cluster, backend_id, address); listener = address; certificate = (address, fingerprint)",
         "backend ids generated by the loader are only required to be distinct within a cluster",
         "TOML syntax corner cases are the toml crate's business; three spellings per file are exercised",
     ]
